@@ -52,6 +52,13 @@ def _execute(record, root):
             if e["notconverged"][m] or ref["notconverged"][m] or ref["gap"][m] < 2.0:
                 errsE.append(None)
                 continue
+            if c["uhf"] and e.get("spin") and e["spin"][m] > 1e-2 and e["Etot"][m] < ref["Etot"][m] - (tol["K_E"] * tau + tol["floor"]):
+                # the unrestricted solve found a spin-polarised state BELOW the closed-shell one: the closed-shell
+                # solution of this geometry is not stable (triplet instability), i.e. the molecule is outside the
+                # statement's domain ("a single stable closed-shell solution").  Its self-consistency is C03's business.
+                stats["probes"]["uhf_lower_broken_symmetry_state"] = stats["probes"].get("uhf_lower_broken_symmetry_state", 0) + 1
+                errsE.append(None)
+                continue
             stats["solves_compared"] += 1
             dE = abs(e["Etot"][m] - ref["Etot"][m])
             dF = float(np.abs(np.array(e["force"][m]) - np.array(ref["force"][m])).max())
